@@ -241,6 +241,8 @@ class UnitResult:
         self.error = None
         self.log_calls = 0
         self.unknown_forks = 0
+        self.unconfirmed_models = 0
+        self.solver_rebuilds = 0
         self.by_backend = {}
         self.cross_stats = {}
         self.witnesses = []
@@ -302,6 +304,32 @@ def run_unit(unit):
         else:
             raise ValueError(unit.kind)
         ex.run(body)
+        misfit = None
+        if ex.relocated and ex.failed:
+            # a loop specification written against one function was applied to a loop found elsewhere (the loop has
+            # been moved).  If the specification is PROVED for the loop where it now stands (every inv-init / inv-keep /
+            # variant obligation of it discharged, nothing undecided in the unit) and none of its roles is played by
+            # state handed over by reference, it is as good as at home and failures stand.  Otherwise a failed
+            # obligation may be a misfit of the specification as well as a defect: it is left undecided.
+            for lname in ex.relocated:
+                for oname, agg in ex.obligations.items():
+                    if ("@" + lname) in oname and agg["status"] != "discharged":
+                        misfit = "its obligation %s is not discharged" % oname.rsplit("/", 2)[-2 if oname.count("/") > 1 else -1]
+                        break
+            if misfit is None and ex.undecided:
+                misfit = "the unit has undecided obligations (%s)" % ex.undecided[0].name.rsplit("/", 1)[-1]
+            if misfit is None and ex.by_reference_roles:
+                misfit = "loop-carried state is handed over by reference (%s)" % ", ".join(sorted(ex.by_reference_roles))
+        if misfit is not None:
+            note = "; ".join("loop specification %s applied at %s" % kv for kv in sorted(ex.relocated.items())) + "; " + misfit
+            for ob in ex.failed:
+                ob.status = "undecided"
+                ob.detail = "not decided (%s): %s" % (note, ob.detail)
+                ob.model = None
+                ex.undecided.append(ob)
+                if ob.name in ex.obligations:
+                    ex.obligations[ob.name]["status"] = "undecided"
+            ex.failed = []
         res.obligations = ex.obligations
         res.failed = [o.as_dict() for o in ex.failed]
         res.undecided = [o.as_dict() for o in ex.undecided]
@@ -310,6 +338,8 @@ def run_unit(unit):
         res.queries = ex.queries
         res.solver_s = ex.solver_s
         res.unknown_forks = ex.unknown_forks
+        res.unconfirmed_models = getattr(ex, "unconfirmed_models", 0)
+        res.solver_rebuilds = ex.solver_rebuilds
         res.by_backend = dict(ex.by_backend)
         res.cross_stats = dict(ex.cross_stats)
         res.witnesses = list(ex.witnesses)
